@@ -115,6 +115,12 @@ func (x *Exec) binop(op token.Token, tx, ty types.Type, a, b Value) Value {
 		if okA && okB {
 			return x.intBinConcrete(op, w, signed, ca, cb)
 		}
+		if x.nano != nil && w == 64 && signed {
+			// comparison of nanosecond counts with a known (seconds, nanoseconds) decomposition
+			if r, done := x.nanoCompare(op, a, b); done {
+				return r
+			}
+		}
 		return x.intBinSym(op, w, signed, x.toTerm(a, w), x.toTerm(b, w))
 	}
 	switch av := a.(type) {
